@@ -246,7 +246,8 @@ def run_tlc(
     specdir = specdir or SPEC
     cfg = cfg or module + ".cfg"
     meta = tempfile.mkdtemp(prefix="verif-tlc-")
-    jopts = [f"-Xmx{heap}", "-Xss64m", "-XX:+UseParallelGC"]
+    # TLC leaves an empty "tlc-<n>" directory in java.io.tmpdir per run: put it inside the private metadir
+    jopts = [f"-Xmx{heap}", "-Xss64m", "-XX:+UseParallelGC", f"-Djava.io.tmpdir={meta}"]
     if dfs:
         jopts.append("-Dtlc2.tool.queue.IStateQueue=StateDeque")
     cmd = ["java", *jopts, "-cp", TLC_CP, "tlc2.TLC", "-metadir", meta, "-noGenerateSpecTE",
